@@ -396,3 +396,18 @@ def q_rel(mode, K=2, only=None):
               "Emit continuation bounded to 3 descriptors; Hello with hostname length 33 / SSID length 7; observation list bound K=2; platform large-property data identical in both worlds (same getter results)"])
 def c09(tier, seed):
     return [q_reset(tier, 3)] + q_rel(1) + q_rel(2)
+
+
+def q_preempt(registered):
+    return blkq("blk_preempt_%s" % ("registered" if registered else "firstframes"), "h_preempt", live=["parseProbe"], K=1, defines=["PRE_REGISTERED"] if registered else [],
+                unwind=6, no_std_checks=True, isr="thread_b", replay=False,
+                bounds={"threads": "two interfaces; B's whole parseFrame call runs atomically at any access of A's call to a shared core object (one pre-emption)",
+                        "frames": "Probe/Train, Reset or unhandled (no transmitting handler)", "registry": "both records pre-registered" if registered else "both interfaces see their first frame"},
+                desc="goto-instrument --isr: second interface's thread as an interrupt inside the real parseFrame of the first")
+
+
+@prop("C17", ["sequential clause: two-world step per frame class (other interface's record registered before/after vs absent) + other record untouched + sends/getters carry the receiving context; with C02's determinism this gives trace equality for any sequential interleaving",
+              "thread clause: bounded to two interfaces and ONE pre-emption (B's call atomic inside A's call) at accesses to file-scope shared objects of the core; finer interleavings are outside the claim",
+              "known finding (not repaired): first frames racing lose one registration in lltd_state_for_iface (no lock/atomic in the port API)"])
+def c17(tier, seed):
+    return q_rel(3) + [q_preempt(True), q_preempt(False)]
